@@ -222,7 +222,7 @@ def iter_next(ex, it):
             y = iter_next(ex, it.src)
             if y is None:
                 return None
-            it.pos = into_iter(ex, ex.call_closure(it.extra, [y]))
+            it.pos = into_iter(ex, ex.call_closure(it.extra, [y]) if it.extra is not None else y)
     if it.kind == "filter_map":
         while True:
             y = iter_next(ex, it.src)
@@ -667,12 +667,14 @@ def call(ex, callee, args):
                 if ex.choose([(True, r.t), (False, z3.Not(r.t))], "iter-position"):
                     return some(IntV(i, "usize"))
                 i += 1
-        if meth in ("filter", "flat_map", "filter_map", "enumerate", "cloned", "copied", "take", "chain", "skip", "rev", "peekable", "fuse", "by_ref"):
+        if meth in ("filter", "flat_map", "filter_map", "flatten", "enumerate", "cloned", "copied", "take", "chain", "skip", "rev", "peekable", "fuse", "by_ref"):
             model(f"Iterator::{meth} (adaptor)")
             if meth == "filter":
                 return IterV("filter", it, 0, args[1])
             if meth in ("flat_map", "filter_map"):
                 return IterV(meth, it, 0, args[1])
+            if meth == "flatten":
+                return IterV("flat_map", it, 0, None)
             if meth == "enumerate":
                 return IterV("enumerate", it, 0)
             if meth in ("cloned", "copied"):
